@@ -9,7 +9,7 @@
    statements cover both signednesses (I_is_power_of_two is the only signed variant). *)
 From Bnum Require Import Base Prim.
 From Bnum.Model Require Import Core Shift Bits.
-From Bnum.Proofs Require Import BitAddr BitsLemmas Cmp Bits.
+From Bnum.Proofs Require Import BitAddrC06 BitsLemmas Cmp Bits.
 
 (* ---- the addressing lemma: bit i of the value is bit (i mod w) of digit (i / w) ---- *)
 Theorem C06_bit_addressing : forall w n ds i, 0 < w -> wf w n ds -> 0 <= i ->
